@@ -1019,3 +1019,140 @@ Lemma maptomb_flag_needs_disjoint_refuted :
 Proof.
   exists ([(1, 5)], [1])%N, ([], [1])%N. vm_compute. repeat split; try reflexivity. discriminate.
 Qed.
+
+(* ================================================================== the executable form of C05
+   (Tomb.C05_set_holds_b, evaluated on the implementation's outputs by the check) is tied to
+   the theorems: on duplicate-free observations it says exactly what settomb_tree concludes,
+   and the model's own observations satisfy it. *)
+Lemma seteqb_spec a b : NoDup a -> NoDup b -> (seteqb a b = true <-> forall x, In x a <-> In x b).
+Proof.
+  intros Na Nb. unfold seteqb. rewrite !andb_true_iff, !forallb_mem_incl, Nat.eqb_eq. split.
+  - intros [[_ I1] I2] x. split; [apply I1|apply I2].
+  - intros S. assert (I1 : incl a b) by (intros x Hx; apply S, Hx).
+    assert (I2 : incl b a) by (intros x Hx; apply S, Hx).
+    pose proof (NoDup_incl_length Na I1). pose proof (NoDup_incl_length Nb I2).
+    repeat split; try assumption. lia.
+Qed.
+
+Lemma all_tomb_In {A} (ss : list (A * list N)) x : In x (all_tomb ss) <-> in_tomb ss x.
+Proof.
+  unfold all_tomb, in_tomb. rewrite in_flat_map. split; intros [s Hs]; exists s; exact Hs.
+Qed.
+
+Lemma spec_live_In ss x : In x (spec_live ss) <-> in_live ss x /\ ~ in_tomb ss x.
+Proof.
+  unfold spec_live. rewrite nodup_In, filter_In, negb_true_iff, mem_false, all_tomb_In.
+  unfold all_live, in_live. rewrite in_flat_map. split; intros [[s Hs] Hn]; (split; [exists s; exact Hs|exact Hn]).
+Qed.
+
+Definition set_res_prop (ss : list tstate) (live tomb : list N) : Prop :=
+  (forall x, In x live <-> in_live ss x /\ ~ in_tomb ss x) /\
+  (forall x, In x tomb <-> in_tomb ss x) /\
+  (forall x, In x live -> ~ In x tomb).
+
+Theorem set_res_ok_spec ss live tomb : NoDup live -> NoDup tomb ->
+  (set_res_ok ss live tomb = true <-> set_res_prop ss live tomb).
+Proof.
+  intros Nl Nt. unfold set_res_ok, set_res_prop.
+  rewrite !andb_true_iff, disjb_spec.
+  rewrite (seteqb_spec live (spec_live ss) Nl) by (unfold spec_live; apply NoDup_nodup).
+  rewrite (seteqb_spec tomb (nodup N.eq_dec (all_tomb ss)) Nt) by apply NoDup_nodup.
+  split.
+  - intros [[L T] D]. split; [|split; [|exact D]].
+    + intros x. rewrite L. apply spec_live_In.
+    + intros x. rewrite T, nodup_In. apply all_tomb_In.
+  - intros [L [T D]]. split; [split|exact D].
+    + intros x. rewrite L. symmetry. apply spec_live_In.
+    + intros x. rewrite T, nodup_In. symmetry. apply all_tomb_In.
+Qed.
+
+Lemma set_res_prop_ext ss ss' live tomb : (forall s, In s ss <-> In s ss') ->
+  set_res_prop ss live tomb -> set_res_prop ss' live tomb.
+Proof.
+  intros S [L [T D]].
+  assert (IL : forall x, in_live ss x <-> in_live ss' x).
+  { intros x. unfold in_live. split; intros [s [Hs Hx]]; exists s; split; try apply S; assumption. }
+  assert (IT : forall x, in_tomb ss x <-> in_tomb ss' x).
+  { intros x. unfold in_tomb. split; intros [s [Hs Hx]]; exists s; split; try apply S; assumption. }
+  split; [|split; [|exact D]].
+  - intros x. rewrite L, IL, IT. tauto.
+  - intros x. rewrite T. apply IT.
+Qed.
+
+(* the model's merge-tree result passes the executable check *)
+Theorem set_res_ok_tree (t : mtree tstate) ss : Forall (W settomb_ops) (leaves t) ->
+  (forall s, In s (leaves t) <-> In s ss) ->
+  set_res_ok ss (fst (teval settomb_ops t)) (snd (teval settomb_ops t)) = true.
+Proof.
+  intros F S. destruct (settomb_tree t F) as [Wt [T L]].
+  apply st_wf_spec in Wt. destruct Wt as [Nl [Nt D]].
+  apply set_res_ok_spec; [exact Nl|exact Nt|].
+  apply (set_res_prop_ext (leaves t)); [exact S|]. split; [exact L|split; [exact T|exact D]].
+Qed.
+
+(* ... and so do its step-by-step observations, flags included *)
+Lemma flags_ok_model A (L : LatOps (A * list N)) : LatLaws L ->
+  forall others init, W L init -> Forall (W L) others ->
+  flags_ok L init (model_steps L init others) = true.
+Proof.
+  intros H others. induction others as [|o r IH]; intros init Wi F; cbn [model_steps flags_ok]; [reflexivity|].
+  inversion F as [|? ? Wo Fr]; subst. cbn [so_ch so_live so_tomb].
+  apply andb_true_iff. split.
+  - rewrite <- surjective_pairing. pose proof (ch_spec H Wi Wo) as C. unfold ch, m in C.
+    rewrite C. apply eqb_reflx.
+  - rewrite <- surjective_pairing. apply IH; [apply (m_wf H); assumption|exact Fr].
+Qed.
+
+Lemma steps_ok_model others : forall pre acc,
+  W settomb_ops acc -> Forall (W settomb_ops) others -> pre <> [] ->
+  set_res_prop pre (fst acc) (snd acc) ->
+  all2 set_step_ok (prefixes pre others) (model_steps settomb_ops acc others) = true.
+Proof.
+  induction others as [|o r IH]; intros pre acc Wa F Hne P; cbn [prefixes model_steps all2]; [reflexivity|].
+  inversion F as [|? ? Wo Fr]; subst.
+  assert (Wm : W settomb_ops (fst (mrg settomb_ops acc o))) by (apply (m_wf settomb_laws); assumption).
+  pose proof Wa as Wa'. pose proof Wo as Wo'. pose proof Wm as Wm'.
+  apply st_wf_spec in Wa', Wo', Wm'.
+  assert (P' : set_res_prop (pre ++ [o]) (fst (fst (mrg settomb_ops acc o))) (snd (fst (mrg settomb_ops acc o)))).
+  { destruct P as [L [T D]]. cbn [mrg settomb_ops]. split; [|split; [|exact (proj2 (proj2 Wm'))]].
+    - intros x. rewrite (st_live_In_wf acc o x Wa' Wo'), L, T. unfold in_live, in_tomb.
+      rewrite !in_app_ex. cbn [In].
+      split.
+      + intros [[[Hl Hn]|Ho] [Hna Hno]].
+        * split; [left; exact Hl|]. intros [Ht|[s [[<-|[]] Hs]]]; auto.
+        * split; [right; exists o; auto|]. intros [Ht|[s [[<-|[]] Hs]]]; auto.
+      + intros [[Hl|[s [[<-|[]] Hs]]] Hn].
+        * split; [left; split; [exact Hl|tauto]|split; [tauto|]].
+          intros Ho. apply Hn. right. exists o. auto.
+        * split; [right; exact Hs|split; [tauto|]].
+          intros Ho. apply Hn. right. exists o. auto.
+    - intros x. rewrite st_tomb_In, T. unfold in_tomb. rewrite in_app_ex. cbn [In].
+      split; [intros [Ht|Ho]; [left; exact Ht|right; exists o; auto]|].
+      intros [Ht|[s [[<-|[]] Hs]]]; auto. }
+  apply andb_true_iff. split.
+  - unfold set_step_ok. cbn [so_live so_tomb].
+    apply set_res_ok_spec; [exact (proj1 Wm')|exact (proj1 (proj2 Wm'))|exact P'].
+  - apply IH; [exact Wm|exact Fr| |exact P'].
+    destruct pre; discriminate.
+Qed.
+
+Theorem C05_set_holds_b_model init others (t : mtree tstate) :
+  Forall (W settomb_ops) (init :: others) ->
+  (forall s, In s (leaves t) <-> In s (init :: others)) ->
+  C05_set_holds_b init others [model_steps settomb_ops init others] [teval settomb_ops t] = true.
+Proof.
+  intros F S. inversion F as [|? ? Wi Fo]; subst. unfold C05_set_holds_b. cbn [forallb].
+  rewrite !andb_true_r. apply andb_true_iff. split; [apply andb_true_iff; split|].
+  - apply steps_ok_model; [exact Wi|exact Fo|discriminate|].
+    pose proof Wi as Wi'. apply st_wf_spec in Wi'. destruct Wi' as [_ [_ D]].
+    unfold in_live, in_tomb. split; [|split; [|exact D]].
+    + intros x. split.
+      * intros Hx. split; [exists init; split; [left; reflexivity|exact Hx]|].
+        intros [s [[<-|[]] Hs]]. exact (D x Hx Hs).
+      * intros [[s [[<-|[]] Hs]] _]. exact Hs.
+    + intros x. split; [intros Hx; exists init; split; [left; reflexivity|exact Hx]|].
+      intros [s [[<-|[]] Hs]]. exact Hs.
+  - apply flags_ok_model; [exact settomb_laws|exact Wi|exact Fo].
+  - apply set_res_ok_tree; [|exact S].
+    apply Forall_forall. intros s Hs. rewrite Forall_forall in F. apply F, S, Hs.
+Qed.
